@@ -96,6 +96,7 @@ STRENGTHENED = {
     "C01-m11": "the C01 storms now run the insured-bankruptcy scenario, which first simulates the settlement with a foreign token account in the liquidity-vault slot",
     "C12-m14": "missed at first (forced withdrawals had arbitrary sizes, never one just past the no-worse-health boundary); for a given repayment the largest accepted forced withdrawal is bisected and committed",
     "C16-m14": "missed at first (liquidators were fresh, or held one of the two banks); a liquidator that holds a third bank only, so that two positions are opened next to a held one in every relative key order",
+    "C14-m13": "missed at first (nothing was ever propagated in the second in which a pause was then declared); the unpaused state is propagated in the very second before the pause, the propagation-fidelity monitor and the behavioural oracle do the rest",
     "C15-m9": "missed at first; the pause-chain engine hands the admin role back and forth between two keys",
     "V4-m2": "caught once every gated instruction (not only deposit) is probed right after the pause expiry",
 }
